@@ -610,7 +610,8 @@ class SelfDep(FunctionContract):
 
 def units():
     return [FunctionUnit(StructNames()), FunctionUnit(VarNameGenerator()), FunctionUnit(ApplyRewriter()),
-            FunctionUnit(IsolateCall()), FunctionUnit(SelfDep())] + __import__('contracts.c07sem', fromlist=['units']).units() + __import__('contracts.c07leaves', fromlist=['units']).units()
+            FunctionUnit(IsolateCall()), FunctionUnit(SelfDep())] + __import__('contracts.c07sem', fromlist=['units']).units() + __import__('contracts.c07leaves', fromlist=['units']).units() \
+        + __import__('contracts.c08', fromlist=['dependency_mapper_units']).dependency_mapper_units()
 
 
 LEVEL = "other"
@@ -619,6 +620,7 @@ TRUSTED_BASE = [
     "A-UNG: UniqueNameGenerator(existing)(base) returns a name outside `existing` and never the same name twice",
     "A-ID: the inherited IdentityMapper.map_call(expr, *args) passes *args on to self.rec(child, *args), which dispatches to the overridden map_call(expr, base_condition, base_deps, extra_deps)",
     "structural induction over the tree for get_names_in_ast_structure (recursive call by contract)",
+    "A-DEP (shared with C08): a statement's read set, which the self-dependency pass tests and the name generators are seeded from, holds the variables of its expressions and no function symbol; the two get_dependency_mapper factories are under contract to build pymbolic's mapper with exactly the flags A-DEP is stated for",
 ]
 ASSUMPTIONS = [
     "MIXED (category other): proved are the structural clauses for the functions listed (the fresh-name generator is seeded with every name of the phase tree: statements' read/write sets, guards, loop variables, loop bounds; isolate_call delegates with the arity the overridden mapper needs and its new statement carries the guard, the dependencies and fresh names). SelfDependencyEliminator.map_statement is under a provenance contract (fresh names / ids are exactly the generators' results, guard and dependencies carried, temporaries first). ExprIfThenElseExpander.map_if and ExprFunctionArgumentIsolator.isolate_arg are under the SEMANTIC rewriter contract RW (contracts/c07sem.py: for every state, the introduced statements executed in list order leave every known name unchanged, make the returned expression evaluate to the value of the rewritten one where the guard holds, and do nothing where it does not), given RW for self.rec (structural induction over the expression, argued); flat_LogicalAnd and the three statement-level map_statement drivers are under contract (guard kept out of the mapper's reach and restored, dependencies on everything introduced, rewritten statement last). get_statements_in_ast is proved to yield exactly the statements of the leaves (the 'all statements of the tree' the generators are seeded from) and ASTStatementRewriter.map_StatementWrapper to replace a leaf by all returned statements in order. Not proved: the composition 'RW for every expression of a statement => the statement list has the effect of the statement' (needs a semantics of each statement class), isolate_call's value clause, and calls as events (a call is a pure value in RW).",
